@@ -65,9 +65,9 @@ type c19Edit struct {
 // classes by construction: "load" must load, "fail" cannot load, "cold" = whatever a cold
 // start of the same content does (decided by the worker, not by this file)
 var c19Class = map[string]string{
-	"valid": "load", "valid-interp": "load", "valid-ws": "load", "recreate": "load", "atomic": "load", "trunc": "load",
+	"valid": "load", "valid-same-stat": "load", "valid-interp": "load", "valid-ws": "load", "recreate": "load", "atomic": "load", "trunc": "load",
 	"parse": "fail", "delete": "fail", "garbage": "fail", "unreadable": "fail",
-	"semantic": "cold", "ws-conflict": "cold", "live-conflict": "cold", "empty": "cold", "comment": "cold", "noversion": "cold",
+	"semantic": "cold", "ws-conflict": "cold", "live-conflict": "cold", "static-conflict": "cold", "static-ok": "cold", "empty": "cold", "comment": "cold", "noversion": "cold",
 }
 
 func c19Marker(k int) string { return fmt.Sprintf(`{"v":%d}`, k) }
@@ -85,7 +85,7 @@ func c19Content(kind string, k int, rng *rand.Rand) string {
 		extra += fmt.Sprintf("\n@ GET /r%d_%d/:id {\n  $ a = %d\n  > {id: id, a: a + %d}\n}\n", k, i, rng.Intn(100), i)
 	}
 	switch kind {
-	case "valid", "recreate", "atomic", "trunc":
+	case "valid", "recreate", "atomic", "trunc", "valid-same-stat":
 		return head + version + typed + extra
 	case "valid-interp":
 		return head + fmt.Sprintf("@ GET /version {\n  %% db: Database\n  > {v: %d}\n}\n", k) + typed + extra
@@ -115,6 +115,12 @@ func c19Content(kind string, k int, rng *rand.Rand) string {
 	case "ws-conflict":
 		ws := "@ ws /chat {\n  on message {\n    ws.send(\"x\")\n  }\n}\n"
 		return head + version + typedOther + "\n" + ws + "\n" + ws
+	case "static-conflict":
+		// two static mounts that end up on the same mux pattern (the directory exists: it is the file's own)
+		st := []string{"@ static /assets \".\"\n\n@ static /assets \".\"\n", "@ static /files \".\"\n\n@ static /files/ \".\"\n"}[rng.Intn(2)]
+		return head + version + typedOther + "\n" + st
+	case "static-ok":
+		return head + version + typed + "\n@ static /assets \".\"\n"
 	case "live-conflict":
 		return head + version + typedOther + "\n@ ws /__livereload {\n  on message {\n    ws.send(\"x\")\n  }\n}\n"
 	case "empty":
@@ -141,6 +147,8 @@ func c19MkEdit(kind string, k int, rng *rand.Rand) c19Edit {
 		e.GapMs = []int{0, 1, 30, 160}[rng.Intn(4)]
 	case "atomic":
 		e.Style = "atomic"
+	case "valid-same-stat":
+		e.Style = "same-stat" // written with the byte length and the modification time of the file it replaces (cp -p, rsync -t)
 	case "trunc":
 		e.Style = "trunc-write"
 		e.GapMs = []int{0, 5, 60, 180}[rng.Intn(4)]
@@ -1047,7 +1055,7 @@ func checkC19(tier string) {
 	seqs := c19EnumSeqs(cliAlpha, enumLen)
 	nEnum := len(seqs)
 	// longer sampled sequences over the full alphabet
-	fullAlpha := []string{"valid", "valid-interp", "valid-ws", "parse", "garbage", "unreadable", "semantic", "ws-conflict", "live-conflict", "empty", "comment", "noversion", "delete", "recreate", "atomic"}
+	fullAlpha := []string{"valid", "valid-interp", "valid-ws", "parse", "garbage", "unreadable", "semantic", "ws-conflict", "live-conflict", "static-conflict", "static-ok", "empty", "comment", "noversion", "delete", "recreate", "atomic"}
 	for i, n := 0, r.Pick(60, 600); i < n; i++ {
 		l := enumLen + 1 + rng.Intn(4)
 		s := make([]string, l)
@@ -1074,7 +1082,7 @@ func checkC19(tier string) {
 	}
 	nReloadJobs := len(devJobs)
 	// ---- 2. the manager's own fsnotify watcher, real file writes ----
-	watchAlpha := []string{"valid", "valid-interp", "parse", "semantic", "empty", "delete", "unreadable", "recreate", "atomic", "trunc", "ws-conflict", "noversion", "garbage", "comment"}
+	watchAlpha := []string{"valid", "valid-interp", "parse", "semantic", "empty", "delete", "unreadable", "recreate", "atomic", "trunc", "ws-conflict", "noversion", "garbage", "comment", "static-conflict", "static-ok"}
 	for i, n := 0, r.Pick(112, 900); i < n; i++ {
 		l := 2 + rng.Intn(4)
 		s := make([]string, l)
@@ -1082,7 +1090,7 @@ func checkC19(tier string) {
 			s[k] = watchAlpha[rng.Intn(len(watchAlpha))]
 		}
 		if i%3 == 0 { // directed: a failing edit followed by a valid one, in every style
-			s[l-2] = []string{"parse", "semantic", "delete", "garbage", "ws-conflict"}[i/3%5]
+			s[l-2] = []string{"parse", "semantic", "delete", "garbage", "ws-conflict", "static-conflict"}[i/3%6]
 			s[l-1] = []string{"valid", "atomic", "recreate", "trunc", "valid-interp"}[i/15%5]
 		}
 		sse := i%7 == 3
@@ -1210,6 +1218,12 @@ func checkC19(tier string) {
 					e.After = []string{"data.json", "README.md"}
 				}
 			}
+			if kind == "valid-same-stat" && len(j.Edits) > 0 {
+				// the file it replaces is longer, so that the worker can pad the new content to exactly that length
+				if p := &j.Edits[len(j.Edits)-1]; p.Content != "" || p.Style == "write" {
+					p.Content += "\n# " + strings.Repeat("padding ", 120) + "\n"
+				}
+			}
 			j.Edits = append(j.Edits, e)
 		}
 		libByID[id] = j
@@ -1219,7 +1233,7 @@ func checkC19(tier string) {
 	for _, s := range lseqs {
 		mkLib("direct", s)
 	}
-	lwAlpha := []string{"valid", "parse", "semantic", "empty", "delete", "unreadable", "recreate", "atomic", "garbage", "reject"}
+	lwAlpha := []string{"valid", "parse", "semantic", "empty", "delete", "unreadable", "recreate", "atomic", "garbage", "reject", "valid-same-stat"}
 	for i, n := 0, r.Pick(240, 2400); i < n; i++ {
 		l := 2 + rng.Intn(5)
 		s := make([]string, l)
@@ -1228,6 +1242,11 @@ func checkC19(tier string) {
 		}
 		if i%3 == 0 {
 			s[l-1] = []string{"valid", "atomic", "recreate"}[i/3%3]
+		}
+		if i%6 == 2 {
+			// directed: a broken save, then the fix with the same size and the same modification time
+			s[l-2] = []string{"parse", "semantic", "garbage"}[i/6%3]
+			s[l-1] = "valid-same-stat"
 		}
 		mode := "watch"
 		if i%4 == 1 {
@@ -1321,7 +1340,7 @@ func checkC19(tier string) {
 		fmt.Println("BUILD-FAILED: cmd/glyph")
 		os.Exit(2)
 	}
-	procAlpha := []string{"valid", "valid-interp", "parse", "semantic", "empty", "delete", "unreadable", "recreate", "atomic", "ws-conflict", "live-conflict", "garbage"}
+	procAlpha := []string{"valid", "valid-interp", "parse", "semantic", "empty", "delete", "unreadable", "recreate", "atomic", "ws-conflict", "live-conflict", "garbage", "static-conflict"}
 	nProc := r.Pick(40, 320)
 	type pj struct {
 		id    int
